@@ -476,16 +476,19 @@ Definition readPacketG (ro : ropts) (F g : nat) : SM pkt := readPacketHeader ro 
 Lemma readPacket_unfold ro F : readPacket ro F = readPacketG ro F F.
 Proof. reflexivity. Qed.
 
-Lemma exec_epb_g ro F g s ifid ts caplen len data o rest :
-  ro_mixed ro = true -> r_big s = false -> (length (popts_to_options o) + 2 < F)%nat ->
+(* all link types wanted, or only the first interface's and this packet's interface has it *)
+Lemma exec_epb_gen ro F g s ifid ts caplen len data o rest :
+  (ro_mixed ro = true \/
+   (ro_mixed ro = false /\ forall i, nth_error (r_ifaces s) (Z.to_nat ifid) = Some i -> if_link i = r_link s)) ->
+  r_big s = false -> (length (popts_to_options o) + 2 < F)%nat ->
   wf_packet (r_ifaces s) ifid ts caplen len data o ->
   exists s' i, nth_error (r_ifaces s) (Z.to_nat ifid) = Some i /\
     exec (readPacketG ro F (S g)) s (enc_epb ifid ts caplen len data o ++ rest)
-      = ((s', Ok (mkPkt (mkCi ifid (ts / E9, ts mod E9) caplen len) (if_link i) data o)), rest)
+      = ((s', Ok (mkPkt (mkCi ifid (ts / E9, ts mod E9) caplen len) (if ro_mixed ro then if_link i else -1) data o)), rest)
     /\ r_big s' = false /\ r_ifaces s' = r_ifaces s /\ r_link s' = r_link s /\ r_first s' = r_first s
     /\ r_sect s' = r_sect s /\ r_names s' = r_names s.
 Proof.
-  intros Hmix Hbig HF Hwf. pose proof (enc_epb_shape _ _ _ _ _ _ _ Hwf) as (Hshape & HL & Hid). cbv zeta in *.
+  intros Hsel Hbig HF Hwf. pose proof (enc_epb_shape _ _ _ _ _ _ _ Hwf) as (Hshape & HL & Hid). cbv zeta in *.
   destruct Hwf as (Hts & Hcap & Hcl & Hlen & Hwo & Hsz & _ & i & Ei & Hns & Hsnap & Hidlt).
   set (options := popts_to_options o) in *.
   set (L := zlen (opts_enc options) + 32 + zlen data + pad4 (zlen data)) in *.
@@ -502,7 +505,7 @@ Proof.
   (* the header *)
   assert (exists s1, exec (readPacketHeader ro (S f) (S g)) s (le_bytes 4 6 ++ le_bytes 4 L ++ b20 ++ tail) = ((s1, Ok tt), tail)
             /\ r_big s1 = false /\ r_btyp s1 = 6 /\ r_blen s1 = L - 28
-            /\ r_ci s1 = mkCi ifid (ts / E9, ts mod E9) caplen len /\ r_ancil s1 = if_link i
+            /\ r_ci s1 = mkCi ifid (ts / E9, ts mod E9) caplen len /\ (ro_mixed ro = true -> r_ancil s1 = if_link i)
             /\ r_ifaces s1 = r_ifaces s /\ r_link s1 = r_link s /\ r_first s1 = r_first s /\ r_pcap s1 = r_pcap s
             /\ r_sect s1 = r_sect s /\ r_names s1 = r_names s) as (s1 & Eh & A1 & A2 & A3 & A4 & A5 & A6 & A7 & A8 & A9 & A10 & A11).
   { cbn [readPacketHeader]. cbv zeta.
@@ -521,10 +524,13 @@ Proof.
     assert (len <? caplen = false) as -> by lia.
     assert (negb (if_snap i =? 0) && (if_snap i <? caplen) = false) as -> by (destruct Hsnap; lia).
     rewrite exec_sret. cbv iota beta.
-    rewrite exec_bind, exec_sget. cbv iota beta. sim. rewrite Ei. rewrite Hmix. cbn [negb].
-    rewrite exec_smod. eexists. split; [reflexivity|]. sim. repeat split; auto. lia. }
+    rewrite exec_bind, exec_sget. cbv iota beta. sim. rewrite Ei.
+    destruct Hsel as [Hmix|(Hmix & Hl)]; rewrite Hmix; cbn [negb].
+    - rewrite exec_smod. eexists. split; [reflexivity|]. sim. repeat split; auto. lia.
+    - rewrite (Hl i Ei), Z.eqb_refl. cbn [negb]. rewrite exec_sret. eexists. split; [reflexivity|]. sim.
+      repeat split; auto; try lia; congruence. }
   unfold readPacketG, rp_tail. rewrite exec_bind, Eh. cbv iota beta.
-  rewrite exec_bind, exec_sget. cbv iota beta. rewrite A4, A2, A5. sim. rewrite A6, Ei.
+  rewrite exec_bind, exec_sget. cbv iota beta. rewrite A4, A2. sim. rewrite A6, Ei.
   (* allocation: three ways, the same afterwards *)
   assert (exists s2, exec (if ro_zc ro
              then if r_pcap s1 <? caplen
@@ -563,10 +569,143 @@ Proof.
   rewrite Eo. cbv iota beta.
   rewrite exec_bind, exec_sget. cbv iota beta. rewrite C1.
   rewrite exec_bind, exec_disc_app by (rewrite zlen_le_bytes; reflexivity). cbv iota beta.
-  rewrite exec_sret. rewrite Hmix.
+  rewrite exec_sret.
+  assert ((if ro_mixed ro then r_ancil s1 else -1) = (if ro_mixed ro then if_link i else -1)) as ->
+    by (destruct (ro_mixed ro); [rewrite (A5 eq_refl)|]; reflexivity).
   destruct (core_fields _ _ C2) as (D1 & D2 & D3 & D4 & D5 & D6 & D7 & D8 & D9 & D10 & D11 & D12). sim.
   eexists. exists i. split; [first [exact Ei|reflexivity]|]. split; [reflexivity|]. sim.
   repeat split; congruence.
+Qed.
+
+(* only the first interface's link type wanted, and this packet's interface has another: the
+   block is skipped, or rejected with ErrNgLinkTypeMismatch *)
+Lemma exec_epb_skip ro F g s ifid ts caplen len data o rest :
+  ro_mixed ro = false -> r_big s = false -> wf_packet (r_ifaces s) ifid ts caplen len data o ->
+  (forall i, nth_error (r_ifaces s) (Z.to_nat ifid) = Some i -> if_link i <> r_link s) ->
+  exists s', r_big s' = false /\ r_ifaces s' = r_ifaces s /\ r_link s' = r_link s /\ r_first s' = r_first s
+    /\ exec (readPacketHeader ro F (S g)) s (enc_epb ifid ts caplen len data o ++ rest)
+        = if ro_errmis ro then ((s', Err 3), rest) else exec (readPacketHeader ro F g) s' rest.
+Proof.
+  intros Hmix Hbig Hwf Hl. pose proof (enc_epb_shape _ _ _ _ _ _ _ Hwf) as (Hshape & HL & Hid). cbv zeta in *.
+  destruct Hwf as (Hts & Hcap & Hcl & Hlen & Hwo & Hsz & _ & i & Ei & Hns & Hsnap & Hidlt).
+  set (options := popts_to_options o) in *.
+  set (L := zlen (opts_enc options) + 32 + zlen data + pad4 (zlen data)) in *.
+  pose proof (zlen_nonneg data) as Hd0. pose proof (pad4_range (zlen data)) as Hpd.
+  assert (0 <= zlen (opts_enc options)) as Hoe by apply zlen_nonneg.
+  rewrite Hshape. 
+  destruct (hdr20_fields ifid (u32 (ts / 4294967296)) (u32 ts) caplen len ltac:(lia)
+              ltac:(unfold u32; apply Z.mod_pos_bound; lia) ltac:(unfold u32; apply Z.mod_pos_bound; lia) ltac:(lia) ltac:(lia))
+    as (Hb20 & Hf1 & Hf2 & Hf3 & Hf4).
+  set (b20 := le_bytes 4 ifid ++ (le_bytes 4 (u32 (ts / 4294967296)) ++ le_bytes 4 (u32 ts)) ++ le_bytes 4 caplen ++ le_bytes 4 len) in *.
+  rewrite ts_split in Hf2 by lia.
+  repeat rewrite <- app_assoc.
+  set (tail := data ++ zeros (pad4 (zlen data)) ++ opts_enc options ++ le_bytes 4 L ++ rest).
+  set (blk := data ++ zeros (pad4 (zlen data)) ++ opts_enc options ++ le_bytes 4 L).
+  assert (zlen blk = L - 28) as Hblk.
+  { unfold blk. rewrite !zlen_app, zlen_le_bytes, zlen_zeros by lia. subst L. lia. }
+  replace tail with (blk ++ rest) by (unfold tail, blk; repeat rewrite <- app_assoc; reflexivity).
+  cbn [readPacketHeader]. cbv zeta.
+cbn [readPacketHeader]. cbv zeta.
+  rewrite exec_bind, exec_readBlock_plain by (try assumption; try lia; unfold BT_SHB; lia). cbv iota beta.
+  rewrite exec_bind, exec_sget. cbv iota beta. sim. cbn [Z.eqb Pos.eqb orb].
+  rewrite exec_bind, exec_rd_app by exact Hb20. cbv iota beta.
+  rewrite exec_bind, exec_sub_blen. cbv iota beta.
+  rewrite exec_bind, exec_sget. cbv iota beta. sim. rewrite Hf1, Hf2.
+  rewrite exec_bind, exec_smod. cbv iota beta. sim.
+  assert (zlen (r_ifaces s) <=? ifid = false) as -> by lia. rewrite Ei.
+  rewrite exec_bind. rewrite (convert_time_ns i ts Hns Hts). cbn [slift]. rewrite exec_sret. cbv iota beta.
+  rewrite exec_bind, exec_smod. cbv iota beta. sim. rewrite Hf3, Hf4.
+  rewrite exec_bind. unfold check_caplen. rewrite exec_bind, exec_sget. cbv iota beta. sim.
+  rewrite u32_small by lia.
+  assert (L - 8 - 20 <? caplen = false) as -> by (subst L; lia).
+  assert (len <? caplen = false) as -> by lia.
+  assert (negb (if_snap i =? 0) && (if_snap i <? caplen) = false) as -> by (destruct Hsnap; lia).
+  rewrite exec_sret. cbv iota beta.
+  rewrite exec_bind, exec_sget. cbv iota beta. sim. rewrite Ei. rewrite Hmix. cbn [negb].
+  assert (if_link i =? r_link s = false) as -> by (apply Z.eqb_neq; apply Hl; exact Ei). cbn [negb].
+  rewrite exec_bind, exec_disc_app by lia. cbv iota beta.
+  eexists. split; [|split; [|split; [|split]]]; cycle 4.
+  { destruct (ro_errmis ro); [rewrite exec_sfail; reflexivity|reflexivity]. }
+  all: sim; auto.
+Qed.
+
+(* the packet block header followed by ANY bytes x: what the block loop does with it *)
+Lemma hdr_epb_x ro F g s ifid ts caplen len data o :
+  r_big s = false -> wf_packet (r_ifaces s) ifid ts caplen len data o ->
+  let L := zlen (opts_enc (popts_to_options o)) + 32 + zlen data + pad4 (zlen data) in
+  let b20 := le_bytes 4 ifid ++ (le_bytes 4 (u32 (ts / 4294967296)) ++ le_bytes 4 (u32 ts)) ++ le_bytes 4 caplen ++ le_bytes 4 len in
+  exists i s2, nth_error (r_ifaces s) (Z.to_nat ifid) = Some i
+    /\ r_big s2 = false /\ r_btyp s2 = 6 /\ r_blen s2 = L - 28 /\ r_ci s2 = mkCi ifid (ts / E9, ts mod E9) caplen len
+    /\ r_ifaces s2 = r_ifaces s /\ r_link s2 = r_link s /\ r_first s2 = r_first s /\ r_pcap s2 = r_pcap s
+    /\ (forall y, zlen y < 20 -> exists s', exec (readPacketHeader ro F (S g)) s (le_bytes 4 6 ++ le_bytes 4 L ++ y) = ((s', Err 2), []))
+    /\ forall x, exec (readPacketHeader ro F (S g)) s (le_bytes 4 6 ++ le_bytes 4 L ++ b20 ++ x) =
+        if ro_mixed ro then ((set_ancil s2 (if_link i), Ok tt), x)
+        else if negb (if_link i =? r_link s)
+             then match exec (s_disc (L - 28)) s2 x with
+                  | ((s3, Ok _), l1) => if ro_errmis ro then ((s3, Err 3), l1) else exec (readPacketHeader ro F g) s3 l1
+                  | ((s3, Err c), l1) => ((s3, Err c), l1)
+                  | ((s3, Panic q), l1) => ((s3, Panic q), l1)
+                  end
+             else ((s2, Ok tt), x).
+Proof.
+  intros Hbig Hwf. pose proof (enc_epb_shape _ _ _ _ _ _ _ Hwf) as (Hshape & HL & Hid). cbv zeta in *.
+  destruct Hwf as (Hts & Hcap & Hcl & Hlen & Hwo & Hsz & _ & i & Ei & Hns & Hsnap & Hidlt).
+  set (options := popts_to_options o) in *.
+  set (L := zlen (opts_enc options) + 32 + zlen data + pad4 (zlen data)) in *.
+  pose proof (zlen_nonneg data) as Hd0. pose proof (pad4_range (zlen data)) as Hpd.
+  assert (0 <= zlen (opts_enc options)) as Hoe by apply zlen_nonneg.
+  destruct (hdr20_fields ifid (u32 (ts / 4294967296)) (u32 ts) caplen len ltac:(lia)
+              ltac:(unfold u32; apply Z.mod_pos_bound; lia) ltac:(unfold u32; apply Z.mod_pos_bound; lia) ltac:(lia) ltac:(lia))
+    as (Hb20 & Hf1 & Hf2 & Hf3 & Hf4).
+  set (b20 := le_bytes 4 ifid ++ (le_bytes 4 (u32 (ts / 4294967296)) ++ le_bytes 4 (u32 ts)) ++ le_bytes 4 caplen ++ le_bytes 4 len) in *.
+  rewrite ts_split in Hf2 by lia.
+  exists i. eexists. split; [exact Ei|].
+  split; [|split; [|split; [|split; [|split; [|split; [|split; [|split; [|split]]]]]]]]; cycle 9.
+  { intros x. set (tail := x).
+    cbn [readPacketHeader]. cbv zeta.
+cbn [readPacketHeader]. cbv zeta.
+    rewrite exec_bind, exec_readBlock_plain by (try assumption; try lia; unfold BT_SHB; lia). cbv iota beta.
+    rewrite exec_bind, exec_sget. cbv iota beta. sim. cbn [Z.eqb Pos.eqb orb].
+    rewrite exec_bind, exec_rd_app by exact Hb20. cbv iota beta.
+    rewrite exec_bind, exec_sub_blen. cbv iota beta.
+    rewrite exec_bind, exec_sget. cbv iota beta. sim. rewrite Hf1, Hf2.
+    rewrite exec_bind, exec_smod. cbv iota beta. sim.
+    assert (zlen (r_ifaces s) <=? ifid = false) as -> by lia. rewrite Ei.
+    rewrite exec_bind. rewrite (convert_time_ns i ts Hns Hts). cbn [slift]. rewrite exec_sret. cbv iota beta.
+    rewrite exec_bind, exec_smod. cbv iota beta. sim. rewrite Hf3, Hf4.
+    rewrite exec_bind. unfold check_caplen. rewrite exec_bind, exec_sget. cbv iota beta. sim.
+    rewrite u32_small by lia.
+    assert (L - 8 - 20 <? caplen = false) as -> by (subst L; lia).
+    assert (len <? caplen = false) as -> by lia.
+    assert (negb (if_snap i =? 0) && (if_snap i <? caplen) = false) as -> by (destruct Hsnap; lia).
+    rewrite exec_sret. cbv iota beta.
+    rewrite exec_bind, exec_sget. cbv iota beta. sim. rewrite Ei.
+    destruct (ro_mixed ro); cbn [negb].
+    - rewrite exec_smod. reflexivity.
+    - destruct (negb (if_link i =? r_link s)).
+      + rewrite exec_bind. sim. replace (L - 8 - 20) with (L - 28) by lia.
+        match goal with |- context [exec (s_disc (L - 28)) ?st tail] => destruct (exec (s_disc (L - 28)) st tail) as [[s3 o3] l3] end.
+        destruct o3; [destruct (ro_errmis ro); [rewrite exec_sfail|]; reflexivity|reflexivity|reflexivity].
+      + rewrite exec_sret. reflexivity. }
+  all: sim; auto; try lia.
+  intros y Hy. cbn [readPacketHeader]. cbv zeta.
+  rewrite exec_bind, exec_readBlock_plain by (try assumption; try lia; unfold BT_SHB; lia). cbv iota beta.
+  rewrite exec_bind, exec_sget. cbv iota beta. sim. cbn [Z.eqb Pos.eqb orb].
+  rewrite exec_bind, exec_rd_short by lia. eauto.
+Qed.
+
+Lemma exec_epb_g ro F g s ifid ts caplen len data o rest :
+  ro_mixed ro = true -> r_big s = false -> (length (popts_to_options o) + 2 < F)%nat ->
+  wf_packet (r_ifaces s) ifid ts caplen len data o ->
+  exists s' i, nth_error (r_ifaces s) (Z.to_nat ifid) = Some i /\
+    exec (readPacketG ro F (S g)) s (enc_epb ifid ts caplen len data o ++ rest)
+      = ((s', Ok (mkPkt (mkCi ifid (ts / E9, ts mod E9) caplen len) (if_link i) data o)), rest)
+    /\ r_big s' = false /\ r_ifaces s' = r_ifaces s /\ r_link s' = r_link s /\ r_first s' = r_first s
+    /\ r_sect s' = r_sect s /\ r_names s' = r_names s.
+Proof.
+  intros Hmix Hbig HF Hwf.
+  destruct (exec_epb_gen ro F g s ifid ts caplen len data o rest (or_introl Hmix) Hbig HF Hwf) as (s' & i & H).
+  rewrite Hmix in H. eauto.
 Qed.
 
 Lemma exec_epb ro F s ifid ts caplen len data o rest :
